@@ -357,6 +357,51 @@ fn prefix_tail_cases(ctx: &Ctx, n: u64) -> Vec<(Case, bool)> {
     out
 }
 
+// A character that cannot start any token, placed at a token boundary of a
+// valid program (outside strings and comments): the whole file must be
+// rejected, at that character, and nothing may run.
+fn illegal_char_cases(ctx: &Ctx, corp: &[String], offs: &[Vec<usize>], n: u64) -> Vec<(Case, bool)> {
+    let bad = ["\u{0}", "@", "?", "~", "^", "`", "'", "\u{7f}", "\u{85}", "\u{a0}", "\u{1}", "€", "²", "\\", "!", "&", "|"];
+    let mut out = vec![];
+    let mut t = sdmodel::tape::tape_from_seed(ctx.sub_seed("illegal", 0), (n * 8) as usize);
+    let mut tries = 0;
+    while (out.len() as u64) < n && tries < n * 6 {
+        tries += 1;
+        let i = t.pick(corp.len());
+        let src = &corp[i];
+        // Only programs that print something and are accepted as they are.
+        if !src.contains("print(") || offs[i].len() < 3 {
+            continue;
+        }
+        if !matches!(inproc_front(src.as_bytes()), Ok(FrontRes::Accepted)) && worker_available() {
+            continue;
+        }
+        let k = 1 + t.pick(offs[i].len() - 2);
+        let at = offs[i][k];
+        if !src.is_char_boundary(at) {
+            continue;
+        }
+        let c = bad[t.pick(bad.len())];
+        let c = match c { "\u{0}" => "\u{0}".replace("\u{0}", "\0"), other => other.to_string() };
+        let c: String = match c.as_str() {
+            "\0" => "\u{0}".chars().next().map(|_| '\u{0}'.to_string()).unwrap(),
+            "\u{7f}" => '\u{7f}'.to_string(), "\u{85}" => '\u{85}'.to_string(), "\u{a0}" => '\u{a0}'.to_string(), "\u{1}" => '\u{1}'.to_string(),
+            "\\" => "\\".to_string(),
+            other => other.to_string(),
+        };
+        // `!`, `&`, `|` alone are illegal only when not followed by `=`, `&`, `|`.
+        let tail = &src[at..];
+        if (c == "!" && tail.starts_with('=')) || (c == "&" && tail.starts_with('&')) || (c == "|" && tail.starts_with('|')) {
+            continue;
+        }
+        let text = format!("{}{} {}", &src[..at], c, tail);
+        let line = 1 + src[..at].matches('\n').count() as u32;
+        ctx.label("illegal character at a token boundary");
+        out.push((front_case("illegal_char", text.into_bytes(), "reject", line, &format!("character {:?} inserted at a token boundary of a valid program", c)), true));
+    }
+    out
+}
+
 pub fn run(ctx: &Ctx) {
     ctx.set_rule("all strings of length <= 3 over a 50-symbol alphabet of Seed punctuation / keywords / escapes / multi-byte and control characters (exhaustive), random Unicode strings, token-level mutations (delete, duplicate, swap, replace, glue a multi-byte character, control characters) and truncations of the repository's 336 test scripts and of generated programs, unterminated strings / escapes / slots at EOF, invalid UTF-8 inside comments / strings / anywhere, valid printing prefix + broken tail; oracle: never a crash or hang; a front-end rejection has empty stdout, exit 103, exactly one `<path>:<line>:<col>: <message>` with 1 <= line <= lines+1 (and within the broken tail); non-UTF-8 is a read error. Non-trivial = the input is rejected, or was mutated / contains multi-byte or control characters next to tokens; distinct = distinct inputs");
     ctx.replay_corpus(Some(&custom));
@@ -395,6 +440,7 @@ pub fn run(ctx: &Ctx) {
         }
         Some((c, true))
     });
+    ctx.judge_all(illegal_char_cases(ctx, &corp, &offs, ctx.n(2_000, 60_000)), Via::Cli, Some(&custom));
     // Every-offset truncation of a few programs, through the binary.
     let mut cases = vec![];
     for (k, s) in corp.iter().enumerate().filter(|(k, _)| k % 29 == 0).take(if ctx.tier == Tier::Quick { 8 } else { 60 }) {
